@@ -151,7 +151,16 @@ def build(P, attrs, name="top", is_async=False, mc=2, built=None, _counter=None)
         subdags.append(build(Q, attrs, name=f"sub{_counter[0]}", is_async=False, mc=mc, _counter=_counter))
     fns = {}
 
-    def fn_for(fname):
+    def fn_for(fname, setup=False):
+        if setup:
+            if ("s", fname) not in fns:
+                g = PLAIN[fname]
+
+                def swrapper(*a, **kw):
+                    return g(*a, **kw)
+                swrapper.__qualname__ = swrapper.__name__ = f"{name}_{fname}_setup"
+                fns[("s", fname)] = xn(swrapper, setup=True)
+            return fns[("s", fname)]
         if fname not in fns:
             f = PLAIN[fname]
 
@@ -189,7 +198,7 @@ def build(P, attrs, name="top", is_async=False, mc=2, built=None, _counter=None)
                 if s["kind"] == "call":
                     if s["unpack"]:
                         extra["twz_unpack_to"] = s["unpack"]
-                    v = fn_for(s["fn"])(*pos, **kws, **extra)
+                    v = fn_for(s["fn"], s.get("setup", False))(*pos, **kws, **extra)
                 elif s["kind"] == "op":
                     v = OPS[s["fn"]](*pos)
                 else:
